@@ -23,6 +23,8 @@ WORKSPACE_CRATES = [
 CONFIGS = {
     # features unified exactly as the baseline `cargo test --workspace` does
     "workspace": ["--workspace", "--lib"],
+    # every cargo feature of every member (custom_time, optional storage back ends, …); thorough tier
+    "allfeatures": ["--workspace", "--lib", "--all-features"],
 }
 
 
@@ -75,19 +77,20 @@ def _run_cargo(config, facts_dir, target_dir, repo):
         "RUSTC_WORKSPACE_WRAPPER": DRV,
         "FACTDRV_OUT": facts_dir,
         "CARGO_TARGET_DIR": target_dir,
+        "CARGO_INCREMENTAL": "0",   # members are always re-checked (the driver must run); incremental caches only cost disk
     })
     env.pop("RUSTC_WRAPPER", None)
     cmd = ["cargo", "+nightly", "check", "--offline"] + CONFIGS[config]
     return subprocess.run(cmd, cwd=repo, env=env, stdout=subprocess.PIPE, stderr=subprocess.STDOUT, text=True)
 
 
-def extract(config="workspace", repo=REPO, work=WORK, force=False):
+def extract(config="workspace", repo=REPO, work=WORK, force=False, facts_name=None):
     """Returns (facts_dir, info). Re-extracts unless the content hash of the tree is unchanged."""
     build_driver()
     t0 = time.time()
     os.makedirs(work, exist_ok=True)
     th = tree_hash(repo)
-    facts_dir = os.path.join(work, "facts-" + config)
+    facts_dir = os.path.join(work, facts_name or ("facts-" + config))
     stamp = os.path.join(facts_dir, "STAMP.json")
     if not force and os.path.exists(stamp):
         try:
